@@ -59,6 +59,11 @@ func (h *sizedHandler) Handle(ctx context.Context, m p9p.Message) (p9p.Message, 
 		if n > 1<<20 {
 			n = 1 << 20
 		}
+		if v.Fid == 77 {
+			// a handler that answers with more than it was asked for: the
+			// reply cannot fit in msize, whatever the server does with it
+			n += 64
+		}
 		return p9p.MessageRread{Data: pat(int(n))}, nil
 	case p9p.MessageTstat:
 		return p9p.MessageRstat{Stat: p9p.Dir{Name: strings.Repeat("N", 300), UID: "u"}}, nil
@@ -155,6 +160,10 @@ func c10ServerCase(first p9p.Message, tag p9p.Tag) *explore.Scenario {
 				cli.Write(refcodec.EncodeFrame(4, p9p.MessageTstat{Fid: 1}))
 				recv()
 				cli.Write(refcodec.EncodeFrame(5, p9p.MessageTclunk{Fid: 1}))
+				recv()
+				// last: a read whose handler over-answers (the server may give
+				// up the connection, it must not emit an over-long frame)
+				cli.Write(refcodec.EncodeFrame(6, p9p.MessageTread{Fid: 77, Offset: 0, Count: 0xFFFFFFFF}))
 				recv()
 				cli.Close()
 			})
@@ -373,7 +382,7 @@ func c10ClientCaseP(answer p9p.Message, proposal int) *explore.Scenario {
 func c10(c *core.Ctx) {
 	c.Budget(100*time.Second, 10*time.Minute)
 	vals := c10Values()
-	c.SetRule(fmt.Sprintf("server side: a scripted client opens a real ServeConn with Tversion(msize p, version v) for p in %d boundary-dense values (0..30, 2^k, 2^k+-1, 65535..65537, 2^31+-1, 2^32-1) x 5 version strings, or with each of the other message kinds; then sends a Twrite frame of exactly the agreed size, Treads of 200000 and 2^32-1 bytes, a Tstat whose reply is large, a Tclunk. client side: a real CSession against a scripted server answering Rversion(msize a) for the same values x version strings, or a non-version reply, and the same client with proposals {24,100,65537} (quick) / {19,23,24,25,100,8192,65535,65537,2^20} (thorough) through the VerifCSession hook against every answer; then Read and Write of 2*msize+50 bytes with the server answering with frames of exactly the agreed size. thorough adds every msize 0..4200 and 65000..66100 on both sides. One execution (default schedule) per case under the controlled scheduler. Oracle: Rversion.msize <= min(p, 65536); client msize <= min(proposal, a); no later frame in either direction exceeds the agreed size; a frame of exactly that size is accepted; non-version first message or p < 19 refused with an error and nothing dispatched", len(vals)))
+	c.SetRule(fmt.Sprintf("server side: a scripted client opens a real ServeConn with Tversion(msize p, version v) for p in %d boundary-dense values (0..30, 2^k, 2^k+-1, 65535..65537, 2^31+-1, 2^32-1) x 5 version strings, or with each of the other message kinds; then sends a Twrite frame of exactly the agreed size, Treads of 200000 and 2^32-1 bytes, a Tstat whose reply is large, a Tclunk, and a Tread whose handler returns 64 bytes more than it was asked for. client side: a real CSession against a scripted server answering Rversion(msize a) for the same values x version strings, or a non-version reply, and the same client with proposals {24,100,65537} (quick) / {19,23,24,25,100,8192,65535,65537,2^20} (thorough) through the VerifCSession hook against every answer; then Read and Write of 2*msize+50 bytes with the server answering with frames of exactly the agreed size. thorough adds every msize 0..4200 and 65000..66100 on both sides. One execution (default schedule) per case under the controlled scheduler. Oracle: Rversion.msize <= min(p, 65536); client msize <= min(proposal, a); no later frame in either direction exceeds the agreed size; a frame of exactly that size is accepted; non-version first message or p < 19 refused with an error and nothing dispatched", len(vals)))
 	c.Assume("the protocol exchange is sequential, so one schedule per case suffices; interleavings of the serve loop are C06's business")
 	versions := []string{"9P2000", "9P2000.u", "", "unknown", strings.Repeat("V", 300)}
 	var scs []*explore.Scenario
